@@ -328,39 +328,50 @@ class Ctx(object):
                 self.log('PROOF BROKEN %s\n%s' % (rel, msg))
         return ok_all
 
-    # -- stage R+P for the regenerated effect tables (C08, C18, C19) ---------------------
+    # -- stage R+P for tables regenerated by the AST analyses (effects: C08 C17 C18 C19; purity: C07) -----
     def effects_obligations(self):
-        """Regenerate the event paths of the self-mutating methods from the CURRENT source
-        (tools/regen/effects_ast.py, fail closed) and re-prove this property's obligation file
-        coq/obl/Eff_<prop>.v on them.  A failure is recorded as a broken tie whose detail names the
-        methods and paths that fail the analysis; the concrete search of the check goes on."""
+        """Event paths of the self-mutating methods (tools/regen/effects_ast.py) + coq/obl/Eff_<prop>.v"""
+        return self.regen_obligations('tools.regen.effects_ast', 'Gen_effects.v', 'Eff_%s.v' % self.prop, 'Eff_diag.v',
+                                      'eff_')
+
+    def purity_obligations(self):
+        """Array stores that may alias operand storage (tools/regen/purity_ast.py) + coq/obl/Pur_<prop>.v"""
+        return self.regen_obligations('tools.regen.purity_ast', 'Gen_purity.v', 'Pur_%s.v' % self.prop, 'Pur_diag.v',
+                                      'pur_')
+
+    def regen_obligations(self, module, genfile, oblfile, diagfile, prefix):
+        """Regenerate a table from the CURRENT source with a fail-closed AST analysis and re-prove this
+        property's obligation file on it.  A failure is recorded as a broken tie whose detail names what
+        fails the analysis; the concrete search of the check goes on."""
         import shutil
         import importlib
         t0 = time.time()
-        gdir = os.path.join(GEN, 'eff_' + self.prop)
+        gdir = os.path.join(GEN, prefix + self.prop)
         os.makedirs(gdir, exist_ok=True)
         for f in os.listdir(gdir):
             os.remove(os.path.join(gdir, f))
-        sys.path.insert(0, VERIF)
-        ea = importlib.import_module('tools.regen.effects_ast')
+        if VERIF not in sys.path:
+            sys.path.insert(0, VERIF)
+        ea = importlib.import_module(module)
         ea.REPO = REPO
+        tag = 'regenerate-' + genfile[4:-2]
         try:
-            path, nfn, npaths = ea.generate(os.path.join(gdir, 'Gen_effects.v'))
+            res = ea.generate(os.path.join(gdir, genfile))
         except ea.Untranslatable as e:
-            self.obligations.append(('regenerate-effects', False, str(e)))
-            self.broken_tie('regeneration', 'tools/regen/effects_ast.py', str(e))
-            self.log('EFFECTS REGENERATION FAILED: %s' % e)
+            self.obligations.append((tag, False, str(e)))
+            self.broken_tie('regeneration', module.replace('.', '/') + '.py', str(e))
+            self.log('REGENERATION FAILED (%s): %s' % (module, e))
             return False
+        path = res[0]
         extra = ('-R', gdir, 'PMGen')
         rc, out, err, dt = run_coqc(path, timeout=300, extra=extra)
         if rc != 0:
-            self.obligations.append(('regenerate-effects', False, (err or out)[-1500:]))
-            self.broken_tie('regeneration', 'gen/Gen_effects.v', (err or out)[-1500:])
+            self.obligations.append((tag, False, (err or out)[-1500:]))
+            self.broken_tie('regeneration', 'gen/' + genfile, (err or out)[-1500:])
             return False
-        self.obligations.append(('regenerate-effects', True, '%d methods, %d paths' % (nfn, npaths)))
-        name = 'Eff_%s.v' % self.prop
-        obl = os.path.join(gdir, name)
-        shutil.copy(os.path.join(COQ, 'obl', name), obl)
+        self.obligations.append((tag, True, str(res[1:3])[:200]))
+        obl = os.path.join(gdir, oblfile)
+        shutil.copy(os.path.join(COQ, 'obl', oblfile), obl)
         src = open(obl).read()
         names = re.findall(r'^\s*Theorem\s+(\w+)', src, re.M)
         rc, out, err, dt = run_coqc(obl, timeout=600, extra=extra)
@@ -370,10 +381,11 @@ class Ctx(object):
                 if i < len(blocks):
                     self.axioms[nm] = blocks[i][:1500]
             for nm in names:
-                self.obligations.append((nm, True, 'coq/obl/' + name))
-            self.cov['effect_paths'] = npaths
-            self.log('regenerated effects: %d methods, %d paths; %d obligations re-proved in %.1fs'
-                     % (nfn, npaths, len(names), time.time() - t0))
+                self.obligations.append((nm, True, 'coq/obl/' + oblfile))
+            self.cov['regenerated:' + genfile] = str(res[1]) if len(res) > 1 else ''
+            self.log('regenerated %s (%s); %d obligations of %s re-proved in %.1fs'
+                     % (genfile, ', '.join(str(x) for x in res[1:3] if isinstance(x, int)), len(names), oblfile,
+                        time.time() - t0))
             return True
         msg = (err or out)[-1200:]
         failing = re.search(r'File "[^"]*", line (\d+)', msg)
@@ -382,14 +394,14 @@ class Ctx(object):
             upto = src.split('\n')[:int(failing.group(1))]
             th = [m for m in re.findall(r'^\s*Theorem\s+(\w+)', '\n'.join(upto), re.M)]
             which = th[-1] if th else None
-        diag = os.path.join(gdir, 'Eff_diag.v')
-        shutil.copy(os.path.join(COQ, 'obl', 'Eff_diag.v'), diag)
+        diag = os.path.join(gdir, diagfile)
+        shutil.copy(os.path.join(COQ, 'obl', diagfile), diag)
         rc2, out2, err2, _ = run_coqc(diag, timeout=300, extra=extra)
         for nm in names:
             self.obligations.append((nm, False, msg))
-        self.broken_tie('proof', 'coq/obl/%s: %s' % (name, which or 'obligation'),
-                        {'coq': msg, 'failing_methods_and_paths': (out2 if rc2 == 0 else err2)[-3000:]})
-        self.log('EFFECT OBLIGATION BROKEN %s (%s)\n%s' % (name, which, (out2 if rc2 == 0 else err2)[-1500:]))
+        self.broken_tie('proof', 'coq/obl/%s: %s' % (oblfile, which or 'obligation'),
+                        {'coq': msg, 'what_fails_the_analysis': (out2 if rc2 == 0 else err2)[-3000:]})
+        self.log('REGENERATED OBLIGATION BROKEN %s (%s)\n%s' % (oblfile, which, (out2 if rc2 == 0 else err2)[-1500:]))
         return False
 
     # -- stage K ------------------------------------------------------------
